@@ -21,6 +21,7 @@ RULE = (
     "0 / 0.4 TOL / 3 TOL, interface states {none, named, merged A->B, merged B->A}^interfaces, name mode, order of "
     "merge_patches calls); vertex reference model dict (position cluster, slave-patch set) -> id. non-trivial = at "
     "least one shared corner position"
+    " Naming mode chained: one patch name per block (the slave of one pair is the master of the next)."
 )
 ASSUMPTIONS = [
     "merge tolerance TOL = 1e-7 (documented constant); displaced copies sit at 0.4 TOL (must merge) or 3 TOL (must not)",
